@@ -1,14 +1,23 @@
+/* wfcqueue scenario: real static/wfcqueue.h under the controlled scheduler (strict TSO rule).
+   usage: scen_wfcq PROG SCHED ; thread 0 dequeues ('D' = __cds_wfcq_dequeue_blocking), others enqueue ('E<digit>') */
 #define _LGPL_SOURCE
 #include <urcu/wfcqueue.h>
 #include <stdio.h>
 #include <stdlib.h>
+#include <string.h>
 #include "sched.h"
-static struct cds_wfcq_head h; static struct cds_wfcq_tail tl; static struct cds_wfcq_node n[4];
-static void enq(int t){ for(int i=0;i<2;i++){ struct cds_wfcq_node *x=&n[t*2+i]; vs_call("enq",(unsigned long)x); int r=cds_wfcq_enqueue(&h,&tl,x); vs_ret("enq",r);} }
-static void deq(int t){ for(int i=0;i<5;i++){ vs_call("deq",0); struct cds_wfcq_node *x=__cds_wfcq_dequeue_blocking(&h,&tl); vs_ret("deq",(unsigned long)x);} }
+#define MAXTH 6
+static struct cds_wfcq_head h; static struct cds_wfcq_tail tl; static struct cds_wfcq_node n[10];
+static char *prog[MAXTH]; static int nprog;
+static void body(int t){ for(char *p=prog[t]; *p; p++){
+	if(*p=='E'){ struct cds_wfcq_node *x=&n[p[1]-'0']; p++; vs_call("enq",(unsigned long)x); int r=cds_wfcq_enqueue(&h,&tl,x); vs_ret("enq",r); }
+	else if(*p=='D'){ vs_call("deq",0); struct cds_wfcq_node *x=__cds_wfcq_dequeue_blocking(&h,&tl); vs_ret("deq",(unsigned long)x); } } }
 int main(int argc,char**argv){
-	cds_wfcq_init(&h,&tl); for(int i=0;i<4;i++) cds_wfcq_node_init(&n[i]);
+	static char obuf[1<<20]; setvbuf(stdout,obuf,_IOFBF,sizeof obuf);
+	if(argc<3) return 9;
+	for(char *s=strtok(argv[1],"/"); s && nprog<MAXTH; s=strtok(0,"/")) prog[nprog++]=s;
+	cds_wfcq_init(&h,&tl); for(int i=0;i<10;i++) cds_wfcq_node_init(&n[i]);
 	vs_region(&h.node,sizeof h.node,"head"); vs_region(&tl,sizeof tl,"tail"); vs_region(n,sizeof n,"n");
-	vs_spawn(enq); vs_spawn(enq); vs_spawn(deq);
-	vs_run(argc>1?argv[1]:"");
-	return 0; }
+	for(int i=0;i<nprog;i++) vs_spawn(body);
+	vs_run(argv[2]);
+	fflush(stdout); _exit(0); }
